@@ -135,7 +135,7 @@ func exec[T any](s *Sim, c *APICall, do func() (T, error)) (T, error) {
 			c.Pre = cp(o)
 		}
 	}
-	if c.Kind == KPod && c.Verb == "create" {
+	if c.Kind == KPod && (c.Verb == "create" || c.Verb == "update") {
 		for _, v := range c.In.(*v1.Pod).Spec.Volumes {
 			if v.PersistentVolumeClaim != nil {
 				if _, ok := s.Store.tables[KPVC][key(c.NS, v.PersistentVolumeClaim.ClaimName)]; !ok {
